@@ -84,6 +84,13 @@ pub fn run(ctx: &mut Ctx) {
                 if n <= 4 {
                     via_binary(ctx, &f, &EncOpts::v(3), "canonical");
                     via_binary(ctx, &f, &EncOpts::v(1), "canonical");
+                    // the parent ids of every record in descending order (a file of another writer; refuse-or-exact:
+                    // a reader that accepts it must classify every term as the graph says)
+                    if f.edges.len() > 1 {
+                        let mut g = f.clone();
+                        g.edges.reverse();
+                        via_binary(ctx, &g, &EncOpts::list_order(3), "parent ids inside records descending");
+                    }
                     // the obsolete flag / a replacement on any term must not change the classification
                     for k in 0..n {
                         if f.terms[k].id == 1 || f.terms[k].id == 118 {
